@@ -4,7 +4,7 @@ from .. import common, gen, mergecorr, oracles, t2, ser
 from . import base
 
 THEOREMS = ['C15_idempotent_last_plain', 'C15_empty_neutral_plain', 'C15_update_idempotent', 'C15_unsafe_marks_neutral_plain', 'C15_unsafe_marks_anywhere_neutral', 'C15_key_order_neutral_plain', 'C15_permutation_is_peqv',
-            'C15_idempotent_last_prioritised', 'C15_prioritised_update_idempotent', 'C15_prioritised_self_merge', 'C15_empty_neutral_prioritised', 'C15_key_order_neutral_prioritised', 'C15_permutation_is_peqvp', 'C15_marks_neutral_prioritised']
+            'C15_idempotent_last_prioritised', 'C15_prioritised_update_idempotent', 'C15_prioritised_self_merge', 'C15_empty_neutral_prioritised', 'C15_key_order_neutral_prioritised', 'C15_permutation_is_peqvp', 'C15_marks_neutral_prioritised', 'C15_empty_mapping_neutral_general']
 
 
 def tagk(n):
